@@ -116,6 +116,7 @@ def agree(dadi, fa, fb, pts, cost, budget, ndim):
     'different' (it does not) | 'unresolved' (refinement too expensive)."""
     e1 = rel(fa(pts), fb(pts))
     if e1 <= TIGHT: return 'tight', [e1]
+    if not math.isfinite(e1): return 'different', [e1, None, None, None]       # shapes differ or a spectrum is not finite
     spent = 0.0
     if DEADLINE[0] is not None and time.time() > DEADLINE[0]: return 'unresolved', [e1]
     if cost * 4 > budget: return 'unresolved', [e1]
@@ -123,6 +124,9 @@ def agree(dadi, fa, fb, pts, cost, budget, ndim):
         e2 = rel(fa(pts), fb(pts))
     spent += 4 * cost
     if e2 <= TIGHT or e2 <= 0.35 * e1: return 'converging', [e1, e2]
+    # a difference of a percent or more that does not react to the time step at all is not a discretisation effect
+    # (splitting / step-partition errors are first order in dt; event-order effects on the grid were never seen above 1e-4)
+    if e1 >= 1e-2 and abs(e2 - e1) <= 0.1 * e1: return 'different', [e1, e2, None, None]
     e3 = None
     if spent + 16 * cost <= budget:
         with TF(dadi, 16):
@@ -134,7 +138,7 @@ def agree(dadi, fa, fb, pts, cost, budget, ndim):
     if spent + gcost > budget: return 'unresolved', [e1, e2, e3]
     with TF(dadi, 4):
         e4 = rel(fa(2 * pts), fb(2 * pts))
-    if e4 <= TIGHT or e4 <= 0.4 * e1: return 'converging', [e1, e2, e3, e4]
+    if e4 <= TIGHT or e4 <= 0.15 * e1: return 'converging', [e1, e2, e3, e4]
     return 'different', [e1, e2, e3, e4]
 
 REFINE_BUDGET = [20.0]
@@ -153,8 +157,11 @@ def check_pair(chk, dadi, key, what, inp, fa, fb, pts, ndim, cost=0.0):
         return 'raises'
     chk.stat('agree:%s:%s' % (key.split(':')[0], v))
     if v == 'different':
-        chk.fail(key + ':mismatch', '%s: spectra differ by %.2e relative at the default time step and grid; %s (does not converge: not a discretisation effect)'
-                 % (what, errs[0], ', '.join('%s: %s' % (n, '%.2e' % e if e is not None else 'n/a') for n, e in zip(['dt/4', 'dt/16', '2x grid and dt/4'], errs[1:]))), inp)
+        if not math.isfinite(errs[0]):
+            chk.fail(key + ':mismatch', '%s: the spectra have different shapes or non-finite entries' % what, inp)
+        else:
+            chk.fail(key + ':mismatch', '%s: spectra differ by %.2e relative at the default time step and grid; %s (does not converge: not a discretisation effect)'
+                     % (what, errs[0], ', '.join('%s: %s' % (n, '%.2e' % e if e is not None else 'n/a') for n, e in zip(['dt/4', 'dt/16', '2x grid and dt/4'], errs[1:]))), inp)
     return v
 
 # ------------------------------------------------------------------------------------------------- K: conversion
